@@ -105,12 +105,19 @@ Verdict(r) ==
         pResave == IF r.resave = "same" THEN {} ELSE {M("prop.resave", r.resave, "")}
         pAgain == IF r.saveAgain = "same" THEN {} ELSE {M("prop.saveAgain", r.saveAgain, "")}
         pCycle == {M("prop.cycle2", r.cycle2[k][1], r.cycle2[k][2]) : k \in 1..Len(r.cycle2)}
+        \* the written file against the input, both decoded by the independent decoder (not reader against
+        \* reader): header words, per-lump version / compressed flag, game-lump flags / versions, and the
+        \* decompressed bytes of every lump the model says was not rebuilt (none at all without an access)
+        pIHead == {M("prop.fileHeader", r.indepHead[k][1], r.indepHead[k][2]) : k \in 1..Len(r.indepHead)}
+        pIBytes == {M("prop.fileBytes", l, "") : l \in ToSet(r.indepChanged) \ ViewLumps}
+        bIBytes == {M("conform.fileBytes", l, "") : l \in ToSet(r.indepChanged) \ touched}
         \* the reader hands back (decompressed) the bytes the independent encoder put into the file
         pRaw == {M("prop.rawAsEncoded", r.rawMismatch[k], "") : k \in 1..Len(r.rawMismatch)}
     IN IF ~accOK THEN {M("access.unknownView", "", "")}
        ELSE IF r.failed # <<>> THEN {M("prop.completes", r.failed[1], r.failed[2])} \cup pRaw
        ELSE bAccess \cup f.bad \cup bStack \cup bAfter \cup bModel \cup bChanged \cup bLoss
             \cup pView \cup pBytes \cup pNoAcc \cup pHead \cup pMeta \cup pCache \cup pResave \cup pAgain \cup pCycle \cup pRaw
+            \cup pIHead \cup pIBytes \cup bIBytes
 
 Init == i = 0
 Next == i < N /\ i' = i + 1
